@@ -10,6 +10,7 @@ import (
 
 	distiller "github.com/markusmobius/go-domdistiller"
 	"golang.org/x/net/html"
+	"golang.org/x/net/html/atom"
 )
 
 // C01 — every entry point is total.
@@ -231,14 +232,14 @@ func runC01(c *Ctx, idx int) {
 			page := func(body string) string {
 				return "<html><head><title>w1q w2q</title></head><body><p>w3q w4q w5q w6q w7q w8q w9q w10q w11q w12q.</p>" + body + "<p>w13q w14q w15q w16q w17q w18q w19q w20q w21q w22q.</p></body></html>"
 			}
-			route := (sub / 64) % 6
+			route := (sub / 64) % 7
 			reps := 1
-			if sub/64 >= 6 {
-				reps = []int{300, 300, 60, 60, 60, 60}[route] // random fragments; the first five cases use one fixed fragment
+			if sub/64 >= 7 {
+				reps = []int{300, 300, 60, 60, 60, 60, 12}[route] // random fragments; the first five cases use one fixed fragment
 			}
 			for k := 0; k < reps; k++ {
 				frag := "<table><tbody><svg><tr><foreignObject><select></select></tbody>"
-				if sub/64 >= 6 {
+				if sub/64 >= 7 {
 					frag = parserStress(r)
 				}
 				esc := html.EscapeString(frag)
@@ -258,6 +259,32 @@ func runC01(c *Ctx, idx int) {
 				case 4: // healthy tree, escaped markup as text of a paragraph / a table cell
 					doc := parseHTML(page(`<p>w30q w31q w32q w33q w34q w35q w36q ` + esc + ` w37q w38q.</p><table><tr><th>w40q</th><th>w41q</th></tr><tr><td>` + esc + `</td><td>w42q</td></tr><tr><td>w43q</td><td>w44q</td></tr></table>`))
 					ok = c.c01Tree("parser-stress:text", doc, "document", r.opts())
+				case 6: // a hand-built tree (nothing is parsed on the way in): a data table whose <tbody> holds foreign content
+					mk := func(tag string, kids ...*html.Node) *html.Node {
+						n := &html.Node{Type: html.ElementNode, Data: tag, DataAtom: atom.Lookup([]byte(tag))}
+						for _, k := range kids {
+							n.AppendChild(k)
+						}
+						return n
+					}
+					txt := func(s string) *html.Node { return &html.Node{Type: html.TextNode, Data: s} }
+					tbody := mk("tbody")
+					for rr := 0; rr < 3; rr++ {
+						tr := mk("tr")
+						for cc := 0; cc < 6; cc++ {
+							tr.AppendChild(mk("td", txt(fmt.Sprintf("w%dq", 100+rr*6+cc))))
+						}
+						tbody.AppendChild(tr)
+					}
+					foreign, inner, integ := "math", "tr", "mtext"
+					if sub/64 >= 7 {
+						foreign = []string{"math", "svg"}[r.Intn(2)]
+						inner = []string{"tr", "td", "th", "tbody", "caption"}[r.Intn(5)]
+						integ = []string{"mtext", "mi", "foreignObject", "desc", "title"}[r.Intn(5)]
+					}
+					tbody.AppendChild(mk(foreign, mk(inner, mk(integ, mk("select")))))
+					root := mk("div", mk("p", txt(strings.Repeat("w3q w4q w5q w6q w7q w8q w9q w10q. ", 10))), mk("table", tbody))
+					ok = c.c01Tree("parser-stress:hand-built-table", root, "hand-built", r.opts())
 				case 5: // healthy tree, escaped markup as text of foreign elements whose names are raw-text elements in HTML
 					el := []string{"xmp", "noembed", "noframes", "iframe", "plaintext", "style", "script", "noscript", "textarea", "title"}[k%10]
 					ns := []string{"math", "svg"}[(k/10)%2]
